@@ -123,12 +123,64 @@ def run(rep, pdb, tier):
                                 bad.append((n, show(at[2], ctx), at[1], show(at[3], ctx)))
         rep.add("breakdown-exact/%s" % name, rule, not bad, bad[0][0] if bad else fn["body"],
                 "Err exits in the loop: %d; absolute thresholds: %s" % (n_err, [b[1:] for b in bad]), where=loc(bad[0][0]) if bad else "%s:%d" % (fn["file"], fn["span"][0]))
+        # ---- breakdown-free: the scalars the recurrences divide by / give up on must be definite on the claimed class
+        rule_breakdown_free(rep, sv, name)
     rep.floor("breakdown-exact/", 4)
+    rep.floor("breakdown-free/", 4)
     rep.floor("zero-norm/", 4)
     rep.floor("accept-start/", 4)
-    rep.assumptions += ["ONLY the degenerate-start clause of C09 is decided (zero right-hand side / exact initial guess are accepted with x untouched and no division by a zero norm)",
-                        "NOT decided (not applicable to static analysis): convergence within O(n) iterations on SPD / diagonally dominant systems, agreement with the direct solution to tol*cond(A)"]
+    rep.assumptions += ["decided: the degenerate-start clause (zero right-hand side / exact initial guess are accepted with x untouched and no division by a zero norm), scale-free failure exits, and "
+                        "breakdown-freedom: a solver can only converge on EVERY system of its class if no scalar its recurrences divide by or give up on can vanish while the residual has not; "
+                        "an inner product of a vector with itself (or, for CG on SPD systems, of p with A*p) cannot, an inner product of two different vectors and the norm of a left (A^T-)Lanczos vector can",
+                        "NOT decided (not applicable to static analysis): the rate of convergence (O(n) iterations) and agreement with the direct solution to tol*cond(A)"]
     return {}
+
+
+def rule_breakdown_free(rep, sv, name):
+    from .c08 import image_hypotheses, Unclassified, v_eq, v_image
+    ctx, fn = sv.ctx, sv.fn
+    where = "%s:%d" % (fn["file"], fn["span"][0])
+    try:
+        models = sv.run_body(image_hypotheses(sv))
+    except Unclassified as u:
+        rep.missing("breakdown-free/%s" % name, "the loop body can be classified statement by statement", "unclassified: %s" % u, where)
+        return
+    spd = name == "solve_cg"            # the class claimed for CG is SPD: (p, A p) > 0 for p != 0
+    dots, norms = {}, {}
+    for m in models:
+        for key, (c, U, V) in m.dots.items():
+            if not any(a is sv.main for a in ancestors(c)):
+                continue
+            definite = U is not None and V is not None and (v_eq(U, V) or (spd and (v_eq(V, v_image(U, "A")) or v_eq(U, v_image(V, "A")))))
+            d = dots.setdefault(key, [c, True])
+            d[1] = d[1] and definite
+        for key, (c, U) in m.norms.items():
+            if not any(a is sv.main for a in ancestors(c)):
+                continue
+            left = U is None or any(_has_tag(k, "At") for k in U)
+            d = norms.setdefault(key, [c, False])
+            d[1] = d[1] or left
+    bad_d = sorted([c for c, ok in dots.values() if not ok], key=_pos)
+    bad_n = sorted([c for c, left in norms.values() if left], key=_pos)
+    rule_d = ("every inner product evaluated in the loop is of a vector with itself (or, in CG, of p with A*p, positive on the SPD class): the inner product of two different "
+              "vectors can be exactly zero while the residual is not (Lanczos breakdown), and the recurrence then divides by it or gives up, so the solver cannot "
+              "succeed on every system of its class")
+    rule_n = ("no norm of a left (A^T-generated) Lanczos vector is used by the recurrence: that vector vanishes whenever the shadow residual lies in an invariant "
+              "subspace of A^T (reducible A, sparse b), long before the residual does")
+    for k_, c in enumerate(bad_d, 1):
+        rep.bad("breakdown-free/%s/inner-product#%d" % (name, k_), rule_d, c, "%s pairs two different vectors" % show(ctx.term(c), ctx))
+    for k_, c in enumerate(bad_n, 1):
+        rep.bad("breakdown-free/%s/left-norm#%d" % (name, k_), rule_n, c, "%s is the norm of a vector built from A^T images" % show(ctx.term(c), ctx))
+    rep.add("breakdown-free/%s" % name, "the inner products and norms of the loop were classified (definite / indefinite)", bool(dots), sv.main,
+            "inner products in the loop: %d (indefinite: %d), norms of left Lanczos vectors: %d" % (len(dots), len(bad_d), len(bad_n)))
+
+
+def _has_tag(k, tag):
+    while isinstance(k, tuple) and len(k) == 2 and k[0] in ("A", "At"):
+        if k[0] == tag:
+            return True
+        k = k[1]
+    return False
 
 
 def in_macro_(n):
